@@ -47,7 +47,7 @@ pub mod verif {
     pub const MMAP_ARENA: u8 = 1; // return &MEM[MMAP_OFF[k]]
     pub const MMAP_FAR: u8 = 2; // return &FAR[16 * k]
     pub const MMAP_INT: u8 = 3; // return the integer MMAP_ADDR[k] (never dereferenced)
-    pub const MAXMAP: usize = 4;
+    pub const MAXMAP: usize = 6;
     pub static mut MMAP_MODE: [u8; MAXMAP] = [MMAP_FAIL; MAXMAP];
     pub static mut MMAP_OFF: [usize; MAXMAP] = [0; MAXMAP];
     pub static mut MMAP_ADDR: [usize; MAXMAP] = [0; MAXMAP];
